@@ -1,5 +1,7 @@
 import Rbdl
 import Rbdl.AlgDriver
+import Rbdl.AlgDriver2
+import Rbdl.GenUse2
 import Rbdl.GeomDriver
 import Rbdl.BalDriver
 import Rbdl.IterDriver
@@ -810,15 +812,18 @@ def step0 (d : DS) (line : String) : DS × Option String :=
       let (a, t) := parseBody t; let (X, t) := t.xt; let (b, _) := parseBody t
       let showB := fun (x : Body Q) => "ok " ++ showRat x.mass ++ " " ++ showV3 x.com ++ " " ++ showM3 x.inertia
       let res : Option (Body Q) := match cmd with
-        | "join" => a.join X b
-        | "separate" => a.separate X b
-        | _ => (a.join X b).bind (fun j => j.separate X b)
+        | "join" => GenUse.bodyJoin a X b
+        | "separate" => GenUse.bodySeparate a X b
+        | _ => (GenUse.bodyJoin a X b).bind (fun j => GenUse.bodySeparate j X b)
       let r := out d cmd (match res with | some x => showB x | none => "err zeroMass")
       let r := if cmd = "join" && a.mass + b.mass ≠ 0 && !(b.mass = 0 ∧ b.inertia = M3.zero) then
           let u := Spec.rigidUnion a.mass a.com a.inertia X.E X.r b.mass b.com b.inertia
           also r d "join.spec" ("ok " ++ showRat u.1 ++ " " ++ showV3 u.2.1 ++ " " ++ showM3 u.2.2)
         else if cmd = "joinsep" && a.mass ≠ 0 then
           also r d "joinsep.spec" (showB a)
+        else if cmd = "joinsep" && a.mass = 0 && b.mass ≠ 0 then
+          -- massless receiver (theorem C15.separate_join_massless_gen): centre of mass reset, inertia restored
+          also r d "joinsep.spec" (showB ⟨0, V3.zero, a.inertia, false⟩)
         else r
       (r.1, some r.2)
     | "dump" => let (d, s) := out d cmd (dumpModel d.m); (d, some s)
@@ -870,8 +875,8 @@ def step0 (d : DS) (line : String) : DS × Option String :=
     | "alg" =>
       let op := rest.headD ""
       let args := (rest.drop 1).map (fun s => (parseRat s).getD 0)
-      let r := out d ("alg." ++ op) (AlgDriver.run op args)
-      let r := match AlgDriver.spec op args with
+      let r := out d ("alg." ++ op) (AlgDriver2.run op args)
+      let r := match AlgDriver2.spec op args with
         | some sp => also r d ("alg." ++ op ++ ".spec") sp
         | none => r
       (r.1, some r.2)
